@@ -284,6 +284,27 @@ def run(tier, seed, replay=None):
                 if abs(t1 - tau[i]) > 1e-8 * max(1.0, abs(tau[i])):
                     fail('curvature/torsion', dict(args, t=t), 'torsion at a single parameter is %r, expected %r' % (t1, float(tau[i])))
                     break
+            # one-sided values at interior knots: curvature / torsion taken from below (above=False) use the derivatives
+            # from below (they differ from the ones from above where the curve is only C1 / C2)
+            s_, e_ = O.domain(spec['bases'][0])
+            iknots = sorted(set(float(x) for x in spec['bases'][0]['knots'] if s_ < x < e_))
+            for tk in iknots[:3]:
+                for ab in (True, False):
+                    v1 = np.asarray(o.derivative(tk, 1, above=ab)).reshape(-1)
+                    a1 = np.asarray(o.derivative(tk, 2, above=ab)).reshape(-1)
+                    j1 = np.asarray(o.derivative(tk, 3, above=ab)).reshape(-1)
+                    w1 = np.cross(v1, a1)
+                    if np.linalg.norm(w1) < 1e-6 * max(1.0, np.linalg.norm(v1) ** 3):
+                        continue
+                    kw = np.linalg.norm(w1) / np.linalg.norm(v1) ** 3
+                    tw = float(np.dot(w1, j1)) / np.linalg.norm(w1) ** 2
+                    kg = float(np.asarray(o.curvature(tk, above=ab)).reshape(-1)[0])
+                    tg = float(np.asarray(o.torsion(tk, above=ab)).reshape(-1)[0])
+                    tga = float(np.asarray(o.torsion([tk], above=ab)).reshape(-1)[0])
+                    if abs(kg - kw) > 1e-8 * max(1.0, kw):
+                        fail('curvature/torsion', dict(args, t=tk, above=ab), 'curvature at a knot from %s is %r, expected %r' % ('above' if ab else 'below', kg, kw))
+                    if abs(tg - tw) > 1e-8 * max(1.0, abs(tw)) or abs(tga - tw) > 1e-8 * max(1.0, abs(tw)):
+                        fail('curvature/torsion', dict(args, t=tk, above=ab), 'torsion at a knot from %s is %r (array form %r), expected %r' % ('above' if ab else 'below', tg, tga, tw))
             # Frenet frame orthonormal
             T = np.asarray(o.tangent(ts))
             Bn = np.asarray(o.binormal(ts))
